@@ -22,7 +22,10 @@ def run_one(prop: str, tier: str, repo: str | None, quiet: bool = False) -> int:
         mod = importlib.import_module(f"sa.props.{prop.lower()}")
         P = Program(repo)
         ctx = report.Ctx(P, prop, tier)
-        mod.run(ctx)
+        try:
+            mod.run(ctx)
+        except report.MissingConstruct:
+            pass    # the failing obligation is filed; report it (exit 1) instead of evaluating the remaining rules over nothing
         extra = {}
         if tier == "thorough":
             from . import mutate
